@@ -398,6 +398,9 @@ pub proof fn lemma_kept_then_consumed(a: Map<MeetingToken, Vec<TokenType>>, b: M
 //@ rewrite E3 "crate::Error" => "crate_error::Error" x*
 //@ rewrite E3 "bincode::deserialize\(invite\)" => "bincode::deserialize_slice(invite)" x1
 //@ rewrite E15 "format!\([^;]*\)\)\);" => "fmt_stub()));" x1
+//@ insert before-stmt "inv.insert("
+        // [only_an_invitation_for_this_application_is_stored] an invitation is written to the database only after the check that it names this application: a refused invitation leaves no row that a restart would load into the token table
+        assert(inv.application@ == self.app());
 //@ insert after-stmt "entry.push(TokenType::Invite(inv.clone()));"
         assert(is_accepted(entry@[entry@.len() - 1], inv.invite_id));
         assert(self.allowed_token@[token]@.len() > 0);
